@@ -81,9 +81,9 @@ def build(x):
     pieces += ["impl<A> Slot<A> {", sn, "}", SPEC_IMPL]
     pr = x.method(F, 'SessionWindowManager', 'process', trait='WindowManager')
     pr.replace_exact('V-TRAIT', 'Self::Output', 'Option<WindowResult<A::Out>>', detail='associated type Output substituted')
-    pr.replace_exact('V-SUBST', 'ts - slot.last > self.gap', 'gap_elapsed(ts, slot.last, self.gap)', detail='R-CLOCK: elapsed-time comparison replaced by an arbitrary boolean')
-    pr.sub('V-COMB', r'let slot = self\s*\.w\s*\.get_or_insert_with\(\|\| Slot::new\(self\.init\.clone\(\), ts\)\);',
-           'if self.w.is_none() { self.w = Some(Slot::new(self.init.clone(), ts)); }\n                let slot = self.w.as_mut().unwrap();',
+    pr.sub('V-SUBST', r'(\w+) - (\w+)\.last > self\.gap', r'gap_elapsed(\1, \2.last, self.gap)', detail='R-CLOCK: elapsed-time comparison `now - slot.last > self.gap` replaced by an arbitrary boolean', flags=0, must=True)
+    pr.sub('V-COMB', r'let (\w+) = self\s*\.w\s*\.get_or_insert_with\(\|\| Slot::new\(self\.init\.clone\(\), (\w+)\)\);',
+           r'if self.w.is_none() { self.w = Some(Slot::new(self.init.clone(), \2)); }\n                let \1 = self.w.as_mut().unwrap();',
            detail='Option::get_or_insert_with(f) == if none { insert f() }; as_mut().unwrap()', flags=0, must=True)
     # Option::map / Option::or_else by their definitions (two independent rewrites)
     pr.sub('V-COMB', r'self\.w\.take\(\)\.map\(\|s\| WindowResult::Item\(s\.acc\.output\(\)\)\)',
